@@ -239,24 +239,35 @@ pub fn eval_case(case: &Case, st: &mut Stats) -> Vec<Fail> {
             st.evals += 1;
             // align: the <inherited> marker absorbs any permutation of the inherited bindings
             let mut gi = 0usize;
+            let mut skip_own = 0usize;
             let mut ok = true;
             let mut why = String::new();
             for (n, e) in &exp {
                 if e == "<inherited>" {
-                    let mut seen = vec![];
-                    while seen.len() < inh.len() && gi < got.len() {
-                        seen.push(got[gi].clone());
+                    // the namespace block of the top element: its own declarations in map order, and the
+                    // bindings it inherits (prefixes it does not declare itself) anywhere among them, in any order
+                    let own: Vec<String> = sub.nss.iter().map(|d| format!("prefix:{}={}", d.name, d.ns)).collect();
+                    let own_prefix = |ev: &str| sub.nss.iter().any(|d| ev.starts_with(&format!("prefix:{}=", d.name)));
+                    let mut block = vec![];
+                    while gi < got.len() && got[gi].1.starts_with("prefix:") {
+                        block.push(got[gi].clone());
                         gi += 1;
                     }
-                    let mut a: Vec<String> = seen.iter().map(|x| x.1.clone()).collect();
+                    let got_own: Vec<String> = block.iter().filter(|x| own_prefix(&x.1)).map(|x| x.1.clone()).collect();
+                    let mut a: Vec<String> = block.iter().filter(|x| !own_prefix(&x.1)).map(|x| x.1.clone()).collect();
                     let mut b = inh.clone();
                     a.sort();
                     b.sort();
-                    if a != b || seen.iter().any(|x| x.0 != *n) {
+                    if a != b || got_own != own || block.iter().any(|x| x.0 != *n) {
                         ok = false;
-                        why = format!("inherited prefix events: expected {:?} got {:?}", b, seen);
+                        why = format!("inherited prefix events: expected own {:?} + inherited {:?} got {:?}", own, b, block);
                         break;
                     }
+                    skip_own = own.len();
+                    continue;
+                }
+                if skip_own > 0 {
+                    skip_own -= 1;
                     continue;
                 }
                 match got.get(gi) {
@@ -287,7 +298,7 @@ pub fn eval_case(case: &Case, st: &mut Stats) -> Vec<Fail> {
 fn tree_cases(tier: Tier) -> Vec<A> {
     let al = TreeAlphabet {
         elements: vec![A::el("", "a"), A::el("", "b").attr("", "k", "v"), A::el(X, "a").decl("p", X).attr(X, "l", "<"), A::el(Y, "b").decl("", Y)],
-        leaves: vec![A::text("t"), A::text("]]>&<"), A::comment("c"), A::pi("pi", Some("d"))],
+        leaves: vec![A::text("t"), A::text("]]>&<"), A::text(""), A::comment("c"), A::pi("pi", Some("d"))],
         adjacent_text: false,
     };
     let n = tier.pick(4, 5);
